@@ -155,7 +155,12 @@ func genDScript(r *rng, pf dProfile, id string, cnt counters, emit func(line, ou
 			case x < 95:
 				do("flush")
 			default:
-				do("reset " + showResps(genWriterResps(r, pf.faults)))
+				if r.chance(40) {
+					nw := r.pick(W, W, r.rangeIn(1, 16), -1)
+					do(fmt.Sprintf("init %d %d %s", nw, r.pick(0, nw+1, 2*nw, nw+r.rangeIn(1, 20), nw), showResps(genWriterResps(r, pf.faults))))
+				} else {
+					do("reset " + showResps(genWriterResps(r, pf.faults)))
+				}
 			}
 			continue
 		}
@@ -193,7 +198,12 @@ func genDScript(r *rng, pf dProfile, id string, cnt counters, emit func(line, ou
 				do("wt " + showResps(rs))
 			}
 		case x < 96:
-			do("reset")
+			if r.chance(40) {
+				nw := r.pick(W, W, r.rangeIn(1, 16), -1)
+				do(fmt.Sprintf("init %d %d", nw, r.pick(0, nw+1, 2*nw, nw+r.rangeIn(1, 20), nw)))
+			} else {
+				do("reset")
+			}
 		case x < 98:
 			do(fmt.Sprintf("bae %d", r.pick(0, 1, len(e.buf.Data), len(e.buf.Data)+1, -1, r.rangeIn(0, B))))
 		default:
@@ -404,11 +414,15 @@ func genDLarge(r *rng, dd bool, id string, cnt counters, emit func(line, out str
 	if g.b == 0 && g.w >= 4200 {
 		g.b = g.w + 1 // the tightest buffer above 4 KiB: every byte written goes through shrink and flush
 	}
+	pc := 0
+	if g.b > 0 && g.b-g.w < 256 && r.chance(70) {
+		pc = g.b // Data pre-allocated with exactly BufferSize: append never raises BufferSize, the buffer stays tight
+	}
 	var header string
 	if dd {
-		header = fmt.Sprintf("S %s DD %d %d 0 -", id, g.w, g.b)
+		header = fmt.Sprintf("S %s DD %d %d %d -", id, g.w, g.b, pc)
 	} else {
-		header = fmt.Sprintf("S %s D %d %d 0", id, g.w, g.b)
+		header = fmt.Sprintf("S %s D %d %d %d", id, g.w, g.b, pc)
 	}
 	e, st := newDExec(header, cnt)
 	emit(header, st)
@@ -432,6 +446,13 @@ func genDLarge(r *rng, dd bool, id string, cnt counters, emit func(line, out str
 	W := e.buf.WindowSize
 	budget := 3_500_000 // bytes written per script
 	nops := r.rangeIn(4, 12)
+	if dd && e.buf.BufferSize <= 10000 && e.buf.BufferSize-W < 256 {
+		// a tight buffer of a few KiB: fill it completely and go on writing, chunk by chunk through
+		// shrink and flush
+		n := e.buf.BufferSize + r.rangeIn(1, 100)
+		do("w " + pay(n))
+		budget -= n
+	}
 	for k := 0; k < nops && !e.dead && budget > 0; k++ {
 		B := e.buf.BufferSize
 		room := B - W
@@ -513,9 +534,16 @@ func genDLarge(r *rng, dd bool, id string, cnt counters, emit func(line, out str
 				do(fmt.Sprintf("rd %d", r.pick(unread, unread, unread/2, 100000, 1)))
 			}
 		default:
-			if dd {
+			switch {
+			case r.chance(40) && dd:
+				do(fmt.Sprintf("init %d %d -", r.pick(W, W+1, 2*W, W/2+1), r.pick(0, 0, B)))
+				W = e.buf.WindowSize
+			case r.chance(40) && !dd:
+				do(fmt.Sprintf("init %d %d", r.pick(W, W+1, 2*W, W/2+1), r.pick(0, 0, B)))
+				W = e.buf.WindowSize
+			case dd:
 				do("reset -")
-			} else {
+			default:
 				do("reset")
 			}
 		}
